@@ -113,7 +113,28 @@ func enumSkeletons(yield func(SkelCase) bool) {
 			if path[0] == "[]" {
 				return true
 			}
-			for _, v := range skeletonValues {
+			values := skeletonValues
+			// lists of objects: two elements of different completeness, in both
+			// orders (rules comparing neighbours meet a member that one of them lacks)
+			if len(path) > 0 && path[len(path)-1] != "[]" && s.Kind(leaf) == "array" {
+				if it, ok := s.Items(leaf); ok && s.Kind(it) == "object" {
+					full, _ := json.Marshal(allMembers(s, it, 2))
+					bare, _ := json.Marshal(s.Sample(it, 0))
+					// every scalar member and nothing else
+					flatM := map[string]any{}
+					fn, fnodes := s.Props(it)
+					for _, name := range fn {
+						if k := s.Kind(fnodes[name]); (k == "scalar" || k == "any") && !strings.HasPrefix(name, "$") {
+							flatM[name] = s.Sample(fnodes[name], 0)
+						}
+					}
+					flat, _ := json.Marshal(flatM)
+					values = append(append([]string{}, values...),
+						"["+string(full)+","+string(bare)+"]", "["+string(bare)+","+string(full)+"]", "["+string(full)+","+string(full)+"]",
+						"["+string(flat)+","+string(bare)+"]", "["+string(bare)+","+string(flat)+"]", "["+string(flat)+","+string(flat)+"]")
+				}
+			}
+			for _, v := range values {
 				for _, inEx := range []bool{false, true} {
 					if inEx && !hasExample {
 						continue
@@ -253,6 +274,35 @@ func judgeAbsent(c AbsentCase, o *vh.Obs) {
 	op := Op{Kind: "set", Ptr: c.Ptr + "/" + strings.NewReplacer("~", "~0", "/", "~1").Replace(c.Name), Value: c.Value}
 	judgeMutant(MutCase{Doc: c.Doc, Envelope: c.Envelope, Ops: []Op{op}}, o)
 	o.Class("absent-member")
+}
+
+// allMembers builds an instance of an object node with every declared member
+// present (lists with one element); depth limits the nesting.
+func allMembers(s *pubschema.Set, n pubschema.Node, depth int) any {
+	if s.Kind(n) != "object" || depth <= 0 {
+		return s.Sample(n, 0)
+	}
+	out := map[string]any{}
+	names, nodes := s.Props(n)
+	for _, name := range names {
+		if strings.HasPrefix(name, "$") {
+			continue
+		}
+		c := nodes[name]
+		switch s.Kind(c) {
+		case "array":
+			if it, ok := s.Items(c); ok {
+				out[name] = []any{allMembers(s, it, depth-1)}
+			}
+		case "map":
+			out[name] = map[string]any{"abc": "ABC"}
+		case "object":
+			out[name] = allMembers(s, c, depth-1)
+		default:
+			out[name] = s.Sample(c, 0)
+		}
+	}
+	return out
 }
 
 // fuzzSeedsFromSchemas gives the fuzzer one small document per published type
